@@ -121,6 +121,30 @@ def unwrap(v, depth=0):
     return v
 
 
+class LStr(str):
+    """result of a logged conversion (!s / !r / !a): formatting it with a non-empty format spec is str's business and
+    would be invisible; this subclass puts that format() call on the tape (operator format, arguments: the text, the spec)"""
+
+    def __new__(cls, run, text):
+        obj = super().__new__(cls, text)
+        obj._run = run
+        return obj
+
+    def __format__(self, spec):
+        if spec == "":
+            return str.__str__(self)
+        run = self._run
+        entry = {"op": "format", "args": [run.enc(str.__str__(self)), run.enc(spec)]}
+        run.tape.append(entry)
+        try:
+            res = str.__format__(self, spec)
+        except BaseException as exc:
+            entry["exc"] = type(exc).__name__
+            raise
+        entry["ret"] = run.enc(res)
+        return res
+
+
 class Rec:
     """Recording object.  Rules (harness recipe): no reflected operators; `_`-prefixed attribute probes raise
     AttributeError unlogged; `== time.sleep` is answered False unlogged; __str__/__repr__/__hash__ unlogged."""
@@ -225,18 +249,25 @@ class Rec:
         return self._id * 7919 + 13
 
     def _conv(self, tag, fn, text):
-        # pyscript's call_func builds a debug string from every positional argument (str(arg)): not part of the program
+        # pyscript's call_func builds a debug string from every positional argument (str(arg)): not part of the program;
         # nor are the strings CPython builds for error messages: only conversions asked for by the program's own code
-        # (CPython: the frame of the generated source; pyscript: an ast_* evaluator) are logged
+        # (CPython: the instruction being executed is the f-string conversion; pyscript: ast_formattedvalue) are logged
         frame = sys._getframe(2)  # pylint: disable=protected-access
         code = frame.f_code
         if code.co_filename == "<c01>":
-            # CPython: only when the instruction being executed is the f-string conversion itself
-            if dis.opname[code.co_code[frame.f_lasti]] not in ("FORMAT_VALUE", "CONVERT_VALUE", "FORMAT_SIMPLE", "FORMAT_WITH_SPEC"):
+            if dis.opname[code.co_code[frame.f_lasti]] not in ("FORMAT_VALUE", "CONVERT_VALUE"):
                 return text
-        elif code.co_name not in ("ast_formattedvalue", "ast_joinedstr"):
+            if tag == "r" and dis.opname[code.co_code[frame.f_lasti]] == "FORMAT_VALUE" and code.co_code[frame.f_lasti + 1] & 3 == 3:
+                tag = "a"  # ascii() asks __repr__
+        elif code.co_name in ("ast_formattedvalue", "ast_joinedstr"):
+            node = frame.f_locals.get("arg")
+            if tag == "r" and getattr(node, "conversion", -1) == 97:
+                tag = "a"
+        else:
             return text
-        return self._do(f"conv:{tag}", [self], lambda r, seeded: text if seeded else fn(self._payload), wrap=False)
+        run = self._run
+        # the converted text is a str whose own __format__ is on the tape when a format spec is applied to it
+        return self._do(f"conv:{tag}", [self], lambda r, seeded: LStr(run, text if seeded else fn(self._payload)), wrap=False)
 
     def __str__(self):
         return self._conv("s", str, f"<S{self._id}>")
